@@ -228,7 +228,7 @@ def run(tier, seed, scratch, t0):
     # ---- direction B
     bdir = os.path.join(scratch, "B")
     os.makedirs(bdir)
-    nb = 1500 if tier == "thorough" else 100
+    nb = 1500 if tier == "thorough" else 300
     with ProcessPoolExecutor(max_workers=sup.NCPU) as ex:
         for _k, zs in ex.map(gen_ref_archive, [(k, seed, bdir) for k in range(nb)], chunksize=8):
             for name, v in zs.items():
